@@ -52,7 +52,59 @@ func verifC25Ns(t time.Time) string {
 	return v.Add(v, big.NewInt(int64(t.Nanosecond()))).String()
 }
 
+// layout of time.Time (self-checked in TestVerifC25 before it is relied upon)
+type verifC25RawTime struct {
+	wall uint64
+	ext  int64
+	loc  *time.Location
+}
+
+// verifC25StepWall moves the wall-clock reading of t by ns nanoseconds and leaves its monotonic reading
+// untouched: what time.Now() returns after the system clock was stepped (ntpdate, chrony makestep, VM resume).
+func verifC25StepWall(t time.Time, ns int64) (time.Time, bool) {
+	r := (*verifC25RawTime)(unsafe.Pointer(&t))
+	if r.wall>>63 == 0 {
+		return t, false // no monotonic reading
+	}
+	sec := int64(r.wall << 1 >> 31) // bits 30..62: wall seconds since 1885
+	nsec := int64(r.wall & (1<<30 - 1))
+	sec += ns / 1000000000
+	nsec += ns % 1000000000
+	if nsec >= 1000000000 {
+		sec++
+		nsec -= 1000000000
+	} else if nsec < 0 {
+		sec--
+		nsec += 1000000000
+	}
+	if sec < 0 || sec >= 1<<33 {
+		return t, false
+	}
+	r.wall = 1<<63 | uint64(sec)<<30 | uint64(nsec)
+	return t, true
+}
+
+var verifC25Base = time.Now()
+
+// a reading whose wall clock is (sec, nsec) after the zero time.Time and whose monotonic clock is mono ns
+// after the monotonic reading of verifC25Base
+func verifC25TimeMono(sec, nsec, mono int64) (time.Time, bool) {
+	t := verifC25Base.Add(time.Duration(mono))
+	dsec := sec - verifC25ZeroToUnix - t.Unix()
+	if dsec > 9000000000 || dsec < -9000000000 {
+		return t, false
+	}
+	return verifC25StepWall(t, dsec*1000000000+nsec-int64(t.Nanosecond()))
+}
+
 func verifC25Time(sec, nsec int64, zone string) time.Time {
+	if zone[0] == 'm' { // m<ns>: reading with a monotonic clock reading
+		t, ok := verifC25TimeMono(sec, nsec, verifutil.AtoI64(zone[1:]))
+		if !ok {
+			panic("verif c25: cannot build a reading with a monotonic clock for this instant")
+		}
+		return t
+	}
 	t := time.Unix(sec-verifC25ZeroToUnix, nsec)
 	switch zone {
 	case "u":
@@ -93,6 +145,8 @@ func verifC25Exec(op string) string {
 		return fmt.Sprintf("out=%s ref=%s pts=%d", verifC25Ns(out), verifC25Ns(ref), refPTS)
 	case "aa":
 		return verifC25RunAA(verifutil.Atoi(f[1]), f[2:])
+	case "mf":
+		return verifC25RunMF([]int{verifutil.Atoi(f[1]), verifutil.Atoi(f[2])}, f[3:])
 	case "hls":
 		return verifC25RunHLS(f[1], verifutil.Atoi(f[2]), verifutil.Atoi(f[3]), f[4] == "1", f[5:])
 	}
@@ -136,6 +190,10 @@ func verifC25NowFor(e *Estimator, pts int64, off int64) (verifC25Clock, bool) {
 
 func verifC25Gen(r *verifutil.Rand, i int, thorough bool) []string {
 	switch i % 10 {
+	case 5:
+		if i%20 == 5 {
+			return verifC25GenMF(r, thorough)
+		}
 	case 3:
 		return verifC25GenAA(r, thorough)
 	case 7:
@@ -177,6 +235,11 @@ func verifC25Gen(r *verifutil.Rand, i int, thorough bool) []string {
 	case r.Chance(1, 10):
 		pts = -int64(r.U64() % (1 << 40))
 	}
+	// half of the ordinary histories use readings that carry a monotonic clock; the wall clock steps of the
+	// "jump" style then leave the monotonic clock alone, as a stepped system clock does
+	useMono := clk.sec > verifC25ZeroToUnix+86400*400 && clk.sec < verifC25ZeroToUnix+4102444800+86400*400 && r.Bool()
+	var cumJump int64
+	startClk := clk
 	frame := rate / int64(1+r.Intn(60)) // ticks per frame
 	if frame <= 0 {
 		frame = 1 + int64(r.Intn(3000))
@@ -211,6 +274,7 @@ func verifC25Gen(r *verifutil.Rand, i int, thorough bool) []string {
 			j := []int64{-1, 1, -1000000000, 6000000000, -6000000000, 86400000000000, -86400000000000,
 				int64(r.U64()%10000000000) - 5000000000}[r.Intn(8)]
 			now = target.add(j)
+			cumJump += j
 		default: // steady: small positive network/processing jitter
 			now = target.add(int64(r.Intn(200000000)))
 		}
@@ -221,6 +285,12 @@ func verifC25Gen(r *verifutil.Rand, i int, thorough bool) []string {
 			now = verifC25Clock{0, 0} // the zero instant itself
 		}
 		z := zones[r.Intn(3)]
+		if ds := now.sec - startClk.sec; useMono && ds < 4000000000 && ds > -4000000000 {
+			mono := ds*1000000000 + now.nsec - startClk.nsec - cumJump
+			if _, ok := verifC25TimeMono(now.sec, now.nsec, mono); ok {
+				z = fmt.Sprintf("m%d", mono)
+			}
+		}
 		ops = append(ops, fmt.Sprintf("est %d %d %d %s", now.sec, now.nsec, pts, z))
 		verifC25Estimate(priv, verifC25Time(now.sec, now.nsec, z), pts)
 		clk = now
@@ -230,13 +300,20 @@ func verifC25Gen(r *verifutil.Rand, i int, thorough bool) []string {
 
 func TestVerifC25(t *testing.T) {
 	verifC25T = t
+	// self-check of the time.Time layout assumption behind verifC25StepWall
+	for _, d := range []int64{-3600000000001, 7, 86400000000000, -999999999} {
+		st, ok := verifC25StepWall(verifC25Base, d)
+		if !ok || !st.Round(0).Equal(verifC25Base.Round(0).Add(time.Duration(d))) || st.Sub(verifC25Base) != 0 {
+			t.Fatal("verif c25: time.Time layout is not the expected one; cannot emulate wall-clock steps")
+		}
+	}
 	verifutil.Main(t, &verifutil.Harness{
 		ID: "C25", Exec: verifC25Exec, Gen: verifC25Gen, Quick: 3000, Thorough: 30000,
 		Class: func(op, impl string) string {
 			if strings.HasPrefix(op, "reset") {
 				return "reset"
 			}
-			if strings.HasPrefix(op, "aa ") || strings.HasPrefix(op, "hls ") {
+			if strings.HasPrefix(op, "aa ") || strings.HasPrefix(op, "hls ") || strings.HasPrefix(op, "mf ") {
 				return verifC25ClassTrace(op, impl)
 			}
 			if impl == "panic" {
@@ -301,7 +378,16 @@ func verifC25Bubble(body func(clock func() time.Time, jump func(time.Duration)))
 	ok := false
 	synctest.Test(verifC25T, func(_ *testing.T) {
 		var skew atomic.Int64
-		clock := func() time.Time { return time.Now().Add(time.Duration(skew.Load())) }
+		start := time.Now()
+		clock := func() time.Time {
+			// the bubble's time.Now() has no monotonic reading: build one (monotonic = time elapsed in the
+			// bubble, wall = bubble clock + the steps applied so far), as time.Now() gives in production
+			w := time.Now().Add(time.Duration(skew.Load()))
+			if t, ok := verifC25TimeMono(w.Unix()+verifC25ZeroToUnix, int64(w.Nanosecond()), int64(time.Since(start))); ok {
+				return t
+			}
+			return w
+		}
 		ntpestimator.VerifC25SetTimeNow(clock)
 		defer ntpestimator.VerifC25SetTimeNow(nil)
 		body(clock, func(d time.Duration) { skew.Add(int64(d)) })
@@ -498,6 +584,137 @@ func verifC25RunHLS(codec string, trackRate, outRate int, useAbs bool, toks []st
 		return out
 	}
 	return tr.String()
+}
+
+// round 3: one media offering two formats with different clock rates, NTP replaced by the server
+// (ReplaceNTP, as for RTMP/SRT/MPEG-TS/RTP sources); frames are written on either format.
+func verifC25AudioFormat(rate int, pt uint8) (format.Format, unit.Payload) {
+	switch rate {
+	case 8000:
+		return &format.G711{PayloadTyp: 0, MULaw: true, SampleRate: 8000, ChannelCount: 1}, unit.PayloadG711{1, 2, 3, 4}
+	case 48000:
+		return &format.Opus{PayloadTyp: pt, ChannelCount: 2}, unit.PayloadOpus{{0xF8, 0xFF, 0xFE}}
+	}
+	return &format.LPCM{PayloadTyp: pt, BitDepth: 16, SampleRate: rate, ChannelCount: 2}, unit.PayloadLPCM{1, 2, 3, 4}
+}
+
+func verifC25RunMF(rates []int, toks []string) string {
+	tr := &verifC25Trace{}
+	out := ""
+	verifC25Bubble(func(clock func() time.Time, jump func(time.Duration)) {
+		medi := &description.Media{Type: description.MediaTypeAudio}
+		payloads := make([]unit.Payload, len(rates))
+		for i, rt := range rates {
+			f, pl := verifC25AudioFormat(rt, uint8(96+i))
+			if f.ClockRate() != rt {
+				out = "bad-rate"
+				return
+			}
+			medi.Formats = append(medi.Formats, f)
+			payloads[i] = pl
+		}
+		strm := &stream.Stream{
+			OrigDesc:          &description.Session{Medias: []*description.Media{medi}},
+			WriteQueueSize:    512,
+			RTPMaxPayloadSize: 1450,
+			ReplaceNTP:        true,
+			Parent:            test.NilLogger,
+		}
+		if err := strm.Initialize(); err != nil {
+			out = "init-error"
+			return
+		}
+		sub := &stream.SubStream{Stream: strm}
+		if err := sub.Initialize(); err != nil {
+			out = "substream-error"
+			strm.Close()
+			return
+		}
+		r := &stream.Reader{Parent: test.NilLogger}
+		for i, f := range medi.Formats {
+			flag := strconv.Itoa(i)
+			r.OnData(medi, f, func(u *unit.Unit) error {
+				tr.mu.Lock()
+				tr.frames = append(tr.frames, verifC25Frame{clock(), u.PTS, u.NTP, flag})
+				tr.mu.Unlock()
+				return nil
+			})
+		}
+		strm.AddReader(r)
+		synctest.Wait()
+		for _, tok := range toks {
+			switch tok[0] {
+			case 'w':
+				time.Sleep(time.Duration(verifC25TokenArg(tok)))
+			case 'j':
+				jump(time.Duration(verifC25TokenArg(tok)))
+			case 'p': // p<format index>:<pts>
+				idx := int(tok[1] - '0')
+				pts, _ := strconv.ParseInt(tok[3:], 10, 64)
+				sub.WriteUnit(medi, medi.Formats[idx], &unit.Unit{PTS: pts, Payload: payloads[idx]})
+			}
+			synctest.Wait()
+		}
+		strm.RemoveReader(r)
+		strm.Close()
+		synctest.Wait()
+	})
+	if out != "" {
+		return out
+	}
+	return tr.String()
+}
+
+func verifC25GenMF(r *verifutil.Rand, thorough bool) []string {
+	pairs := [][2]int{{8000, 48000}, {48000, 8000}, {8000, 48000}, {44100, 48000}, {48000, 16000}, {8000, 44100}, {48000, 48000}}
+	rates := pairs[r.Intn(len(pairs))]
+	n := 8 + r.Intn(40)
+	if thorough {
+		n = 8 + r.Intn(150)
+	}
+	var pts [2]int64
+	for i := range pts {
+		pts[i] = int64(r.U64() % (1 << 31))
+		if r.Chance(1, 3) {
+			pts[i] = 0
+		}
+	}
+	// which format carries the frames: mostly the second one, sometimes the first, sometimes both
+	mode := r.Intn(4)
+	ms := int64(10 * (1 + r.Intn(10))) // frame duration in ms
+	toks := []string{}
+	for k := 0; k < n; k++ {
+		idx := 1
+		switch mode {
+		case 0:
+			idx = 0
+		case 1:
+			idx = k & 1
+		case 2:
+			if k > n/2 {
+				idx = 0 // the source switches format mid-stream
+			}
+		}
+		toks = append(toks, fmt.Sprintf("p%d:%d", idx, pts[idx]))
+		pts[idx] += ms * int64(rates[idx]) / 1000
+		wait := ms * 1000000
+		switch {
+		case r.Chance(1, 8):
+			wait += int64(r.Intn(400)) * 1000000 // late arrival
+		case r.Chance(1, 12):
+			wait = 0
+		case r.Chance(1, 40):
+			wait += int64(5+r.Intn(3)) * 1000000000
+		}
+		if wait > 0 {
+			toks = append(toks, fmt.Sprintf("w%d", wait))
+		}
+		if r.Chance(1, 30) {
+			toks = append(toks, verifC25Jump(r))
+		}
+	}
+	return []string{fmt.Sprintf("reset %d", rates[0]),
+		fmt.Sprintf("mf %d %d %s", rates[0], rates[1], strings.Join(toks, " "))}
 }
 
 func verifC25Jump(r *verifutil.Rand) string {
